@@ -40,15 +40,15 @@ CHECKS = {
          "Trusted: harness-side rule evaluation and Set-Cookie parser; each cookie name appears in at most one crypto rule.",
          "DESIGN.md §4 C12"),
  # id: (engine, technique, level text, level note, design_ref)
- "C17": ("rtprops", "property-based testing (proptest): algebraic laws + independent structural model + render/parse round trip over generated type pairs/triples",
-         "Random search over pairs/triples of types (depth<=4) built as template/instantiation, renamed copies, single-point mutations and independent pairs; every law of the statement is an executable oracle. Finds shallow and mid-depth law violations with high probability (both seeded defects are found in <10 cases); cannot show absence.",
+ "C17": ("rtprops", "property-based testing (proptest) + coverage-guided fuzzing (libFuzzer, thorough tier): algebraic laws + independent structural model + render/parse round trip over generated type pairs/triples",
+         "Random search over pairs/triples of types (depth<=4) built as template/instantiation, renamed copies, single-point mutations and independent pairs; every law of the statement is an executable oracle. The thorough tier adds a coverage-guided libFuzzer stage (ASan) whose input bytes are decoded into the same case classes and judged by the same oracle. Finds shallow and mid-depth law violations with high probability (both seeded defects are found in <10 cases); cannot show absence.",
          "Trusted: the harness-side mirror type, its structural comparison and the syn->mirror reader. Lifetimes and fn-pointer parameter names are treated as irrelevant. Completeness of is_a_template_for is classified, not asserted.",
          "DESIGN.md §4 C17"),
 }
 
 CHECKS.update({
  "C01": ("pxe2e", "generative end-to-end testing (proptest generator of application crates -> real pavexc -> rustc): differential 'pavexc accepted => rustc accepts the SDK'",
-         "Application crates are generated from a typed genome (1-7 injectable types with lifecycle / cloning policy / Copy / fallibility / async-ness / several constructor variants, 0-6 middlewares of the three kinds, 1-4 routes, error handlers, observers, nesting <=3), compiled by the real `pavexc generate` (one sub-application per module, several per round) and every accepted SDK is compiled by rustc together with the application. A rejection by rustc of code pavexc accepted is the violation, shrunk greedily on the spec. Finds shallow and mid-depth codegen defects in the generated class; cannot show absence; the class does not contain generics, trait objects or lifetimes-parameterised types.",
+         "Application crates are generated from a typed genome (1-7 injectable types with lifecycle / cloning policy / Copy / fallibility / async-ness / two constructor variants, 0-6 middlewares of the three kinds, 1-4 routes incl. bulk imports, error handlers and observers at any nesting level, framework-provided inputs, generic constructors, attribute values overridden at registration, nesting <=3), plus stage-stress applications (many middlewares of one stage sharing clone-if-necessary / Copy values in every move/borrow pattern) and generated route tables with fallbacks; compiled by the real `pavexc generate` (one sub-application per module, several per round) and every accepted SDK is compiled by rustc together with the application. A rejection by rustc of code pavexc accepted is the violation. Finds shallow and mid-depth codegen defects in the generated class (both seeded defects at the default seed); cannot show absence; no trait-bound generics, trait objects or lifetime-parameterised user types.",
          "Trusted: the emitter (harness/pxe2e/src/emit.rs) produces what the spec says; toolchain alias `nightly` with locally built std JSON docs stands in for the pinned docs toolchain.",
          "DESIGN.md §3, §4 C01"),
  "C02": ("pxe2e", "generative end-to-end testing: applications generated inside the documented-rules class by construction; oracle 'accepted with no ERROR', alone and nested with siblings",
@@ -56,11 +56,11 @@ CHECKS.update({
          "Trusted: the discipline assignment in harness/pxe2e/src/genr.rs encodes the documented rules (each rule is cited in DESIGN.md). Generic constructors are generated only in the dedicated generics family.",
          "DESIGN.md §4 C02"),
  "C03": ("pxe2e", "generative end-to-end testing with an instrumented application: event-log invariants over generated request scripts (model-based oracle for lifecycles)",
-         "Every accepted generated application is built into a real server; a driver sends request scripts (each route x plans: none / early return / skip next / fail component) over loopback; constructors and components log construction and reception events with instance ids. Oracle: singleton built once before serving and shared, request-scoped at most once per request and shared, transient once per injection site, nothing received before it was built. Samples schedules of a single-connection client; concurrency between requests is not explored here.",
+         "Every accepted generated application is built into a real server; a driver sends request scripts (each route x plans: none / early return / skip next / fail component) over loopback; constructors and components log construction and reception events with instance ids. Oracle: singleton built once before serving and shared, request-scoped at most once per request and shared, transient once per injection site (never shared, and on requests where nothing fails every transient that was built was injected somewhere), nothing received before it was built. Every third application writes lifecycles differently in the attribute and overrides them at registration. Samples schedules of a single-connection client; concurrency between requests is not explored here.",
          "Trusted: the instrumentation template (harness/pxe2e/src/templates/rt.rs) and the event-log oracle (oracles.rs).",
          "DESIGN.md §4 C03"),
  "C04": ("pxe2e", "generative end-to-end testing: scope-resolution reference model (nearest enclosing blueprint, latest registration) vs the constructor variant observed at run time; clone/move accounting",
-         "Types get up to 3 constructor variants registered at different nesting levels and twice in one blueprint; the instance id records which variant built the value each component received; compared with the reference resolution. Never-clone values must never be cloned, clone-if-necessary values only cloned (counted). Cannot show absence.",
+         "Types get two constructor variants (possibly of different fallibility) registered at different nesting levels and twice in one blueprint; the instance id records which variant built the value each component received; compared with the reference resolution. Never-clone values must never be cloned, clone-if-necessary values only cloned (counted). Cannot show absence.",
          "Trusted: model::resolve_ctor and the instrumentation. Singletons have one registration (documented rule).",
          "DESIGN.md §4 C04"),
  "C05": ("pxe2e", "generative end-to-end testing: documented stage semantics of pre/post/wrapping middlewares as a reference interpreter; exact enter/exit trace comparison",
@@ -69,14 +69,14 @@ CHECKS.update({
          "DESIGN.md §4 C05"),
  "C06": ("pxe2e", "generative end-to-end testing: per-failure oracle over the event log (error handler once, observers in order, dependants skipped, client sees the handler's response)",
          "Fallible constructors, middlewares and handlers are made to fail one at a time (and post-processors repeatedly) by the request plan; for every failure event in the log: exactly one designated error handler ran on that error, every observer in scope ran once each in registration order after it, no dependant of the failed value ran, the response comes from the error handler. Cannot show absence.",
-         "Trusted: model::resolve_err_handler and oracles::check_failure. Observers are registered in the root blueprint only.",
+         "Trusted: model::resolve_err_handler and oracles::check_failure. Every real error type has its handler in the root blueprint; nested blueprints register an extra handler for an error type nothing returns (scoped overrides of the same error type are not generated: the docs do not pin them down).",
          "DESIGN.md §4 C06"),
  "C07": ("pxe2e", "generative end-to-end testing + model-based oracle: generated route tables (static/param/catch-all segments, method guards incl. ANY and custom, prefixes, domains, fallbacks) vs an independent reference router, requests derived from the routes and mutated",
          "Route tables are generated, filtered by the documented conflict rules, compiled and served; requests derived from each route (matching, near-miss, wrong method, trailing slash, percent-encoding, Host variants incl. port / trailing dot / case) are sent over loopback and the answering handler, 404/405 + Allow set and the fallback chosen are compared with the reference router. Five genuine defects found and fixed (prefix off-by-one panic, exact-prefix fallback, start-up order conflicts, two trailing dots, nested fallback silently dropped under a parametric prefix). Cannot show absence.",
-         "Trusted: model::route_request. Prefixes with parameters are generated only in the fallback sub-campaign; a domain whose only content is nested under a prefix is not generated.",
+         "Trusted: model::route_request. A domain whose only content is nested under a prefix, and an un-prefixed nested fallback below a prefixed ancestor without its own fallback (pavexc reports an ambiguity), are not generated; static-vs-parameter priority and host case are classified only.",
          "DESIGN.md §4 C07"),
  "C08": ("pxe2e", "mutation-based generative testing: exactly one violation of one of 14 documented compile-time rules planted at a generated site of a rule-abiding application; oracle 'exit 1, >=1 ERROR, output crate untouched'",
-         "For each base application every rule is planted at a seed-chosen site among the components pavexc must analyse (any dependency depth, nested blueprints, middlewares, observers, error handlers); the crate still compiles as Rust; pavexc must refuse it with an error diagnostic, must not crash and must not touch the output crate. The first diagnostic is recorded per rule to show that the planted rule is the one reported. One genuine defect found and fixed (inputs of error handlers were not checked). Cannot show absence; rules about generics are not planted.",
+         "For each base application every rule is planted at a seed-chosen site among the components pavexc must analyse (any dependency depth, nested blueprints, middlewares incl. wrapping ones, observers, error handlers, through a generic constructor); the crate still compiles as Rust; pavexc must refuse it with an error diagnostic, must not crash and must not touch the output crate. The first diagnostic is recorded per rule to show that the planted rule is the one reported. One genuine defect found and fixed (inputs of error handlers were not checked). Cannot show absence.",
          "Trusted: genr::plant (site selection = components reachable from a route) and the emitter.",
          "DESIGN.md §4 C08"),
  "C09": ("pxe2e", "generative robustness testing (chaos class): several planted violations + structural oddities; oracle 'terminates, exit 0 with SDK or exit 1 with ERROR, never a panic'; atomicity by checksum of a previously generated SDK",
@@ -118,6 +118,8 @@ manifest = {
     "kind_free_text": "in-process proptest checks that link the compiler library (pavexc, feature verif_hooks)"},
    {"name": "pxe2e", "path": "harness/pxe2e", "serves_properties": [p for p in props if p in CHECKS and CHECKS[p][0]=="pxe2e"] + ["C19"],
     "kind_free_text": "end-to-end engine: proptest-generated application crates -> Blueprint::persist -> real pavexc (rebuilt from /repo) -> rustc -> instrumented server driven over loopback; reference models for scopes, pipelines and routing; greedy spec shrinking; work lanes under /verif/.work"},
+   {"name": "rtfuzz", "path": "harness/fuzz", "serves_properties": ["C17"],
+    "kind_free_text": "cargo-fuzz / libFuzzer target (nightly, ASan) over rtprops::c17::case_from_bytes + the C17 oracle; thorough tier only"},
    {"name": "rtprops", "path": "harness/rtprops", "serves_properties": [p for p in props if p in CHECKS and CHECKS[p][0]=="rtprops"],
     "kind_free_text": "in-process proptest checks against the real runtime/compiler library crates (path dependencies on /repo), fixed-seed TestRunner, shrunk failures saved as replay files"},
  ],
